@@ -273,8 +273,8 @@ prop("C15", level="proof",
                   "dependency are outside this technique (not applicable); only the hand-over is under contract: every f32/f64 bit pattern reaches "
                   "ryu::Buffer::format unchanged and its output reaches Repr::from_str (float.*, structural)"])
 
-prop("C16", level="proof",
-     claim="from_utf8 is parametric in the validator: with core::str::from_utf8 replaced by an arbitrary Result, Ok => text == input, Err => "
+prop("C16", level="other",
+     claim="MIXED LEVEL - unbounded contract obligations where stated, otherwise BOUNDED (complete up to the stated size, not a proof beyond it). from_utf8 is parametric in the validator: with core::str::from_utf8 replaced by an arbitrary Result, Ok => text == input, Err => "
            "the validator's error, exactly one validator call (unbounded length). from_utf8_lossy / from_utf16 / from_utf16_lossy: the real "
            "loops (utf8_chunks, decode_utf16, collect) against decoding written from the Unicode definitions (maximal-subpart replacement; "
            "surrogate pairing) on ALL inputs of <= 3 bytes / <= 3 code units, with push_str / from_str / with_capacity under contract "
@@ -285,8 +285,8 @@ prop("C16", level="proof",
      bounded_notes=[{"what": "from_utf8_lossy: all byte strings of length <= 3; from_utf16{,_lossy}: all u16 strings of length <= 3"}],
      not_covered=["inputs to the lossy/UTF-16 decoders longer than the bound (e.g. behaviour that depends on block sizes)"])
 
-prop("C17", level="proof",
-     claim="as_str()/as_bytes() are exactly (text pointer, len) of the ghost view for every representation (unbounded); ==, !=, cmp, "
+prop("C17", level="other",
+     claim="MIXED LEVEL - unbounded contract obligations where stated, otherwise BOUNDED (complete up to the stated size, not a proof beyond it). as_str()/as_bytes() are exactly (text pointer, len) of the ghost view for every representation (unbounded); ==, !=, cmp, "
            "partial_cmp, < on pairs of arbitrary well-formed handles of different storage kinds equal the bytewise lexicographic order of "
            "the ghost texts; the same against str, &str and Cow<str> in both argument orders; Hash feeds the text bytes then 0xff exactly "
            "like str; Display prints exactly the text (texts <= 18 bytes: memcmp / hashing are unwound).",
@@ -295,8 +295,8 @@ prop("C17", level="proof",
      bounded_notes=[{"what": "comparison/hash/Display harnesses: texts <= 18 bytes (6 for Display)"}],
      not_covered=["PartialEq<String> directions (identical body to the str ones)", "HashMap/BTreeMap lookups (consequence of Borrow + Eq/Hash/Ord agreement)"])
 
-prop("C19", level="proof",
-     claim="Built with --features serde,arbitrary in the scratch copy. Serialize: exactly one serialize_str of exactly as_str() (pointer and "
+prop("C19", level="other",
+     claim="MIXED LEVEL - unbounded contract obligations where stated, otherwise BOUNDED (complete up to the stated size, not a proof beyond it). Built with --features serde,arbitrary in the scratch copy. Serialize: exactly one serialize_str of exactly as_str() (pointer and "
            "length) and no other serializer call - what str/String do; Deserialize: requests a string, and each of visit_str / "
            "visit_borrowed_str / visit_bytes / visit_borrowed_bytes yields exactly the input text (symbolic length), bytes being rejected "
            "with one invalid_value error exactly when the core validator rejects them (validator replaced by an arbitrary verdict); "
